@@ -237,7 +237,7 @@ func main() {
 				"VERIF_SEED_COUNT=100000000",
 				fmt.Sprintf("VERIF_DEADLINE_MS=%d", B.Milliseconds()),
 				"VERIF_OUT=" + filepath.Join(tmp, fmt.Sprintf("w%d.jsonl", i)),
-				fmt.Sprintf("VERIF_GOMAXPROCS=%d", []int{1, 4, 16, 2}[i%4]),
+				fmt.Sprintf("VERIF_GOMAXPROCS=%d", []int{1, 1, 1, 1, 1, 1, 2, 4}[i%8]),
 			}
 			outs[i], errs[i] = runWorker(env, B+3*time.Minute)
 		}(i)
